@@ -31,6 +31,8 @@ pub struct SchedState {
     pub progress: u64,
     /// hand-overs forced because the baton holder blocked on a lock owned by a parked client
     pub lock_handovers: u64,
+    /// forced hand-overs requested by the run specification (instruction-granular preemption)
+    pub preemptions: u64,
     /// has the current holder actually resumed since it was given the baton? (until then its OS thread is
     /// asleep merely because the wake-up has not been delivered yet)
     holder_acked: bool,
@@ -102,6 +104,7 @@ impl Sched {
                 in_build_budget: 3000,
                 progress: 0,
                 lock_handovers: 0,
+                preemptions: 0,
                 holder_acked: false,
                 tids: vec![0; n],
                 mode,
@@ -381,6 +384,32 @@ impl Sched {
         }
         let next = Self::choose(&mut st, Some(me), false);
         self.hand_over(st, me, next, in_build, true);
+    }
+
+    /// A forced switch point between two instructions of the code under test (see step.rs), or at a hook visit named
+    /// by the run specification: the baton goes to `to` if that client can run, and comes back like after any
+    /// other switch. Not a decision of the policy: the run specification names the taker, nothing is recorded in
+    /// the decision list.
+    pub fn preempt_to(&self, me: usize, to: usize) {
+        let mut st = self.state.lock().unwrap();
+        if st.deadlock {
+            return;
+        }
+        st.progress += 1;
+        if st.current != Some(me) {
+            st = self.rejoin(st, me);
+            if st.deadlock {
+                return;
+            }
+        }
+        if to != me && st.status.get(to) == Some(&Status::Runnable) {
+            st.preemptions += 1;
+            self.hand_over(st, me, Some(to), true, true);
+        }
+    }
+
+    pub fn preemptions(&self) -> u64 {
+        self.state.lock().unwrap().preemptions
     }
 
     /// Blocks until the mailbox is full. Returns false on deadlock.
